@@ -175,6 +175,34 @@ def run_shard(shard, ctx):
         bad = [r for r in out["results"] if r[1] != "ok"] + [["star:" + mn, why] for mn, why in out.get("star_failures", ())]
         if bad:
             ctx.violation("import-fails:%s:%s" % (fl[0], bad[0][0]), dict(history=list(h), flags=list(fl)), "import %s fails in a fresh interpreter started with %s (history %r): %s" % (bad[0][0], fl[0], list(h), bad[0][1]), script=SCRIPT.format(hist=list(h)).replace('[sys.executable, "-I", "-c"', '[sys.executable, "-I", "%s", "-c"' % fl[0]))
+    # something else called chartparse on a LATER sys.path entry (an older installed release, a stub package): the
+    # tree in front still provides every module
+    import shutil
+    import tempfile
+
+    ddir = tempfile.mkdtemp(prefix="c20decoy_")
+    try:
+        os.makedirs(os.path.join(ddir, "chartparse"))
+        open(os.path.join(ddir, "chartparse", "__init__.py"), "w").write("DECOY = True\n")
+        open(os.path.join(ddir, "chartparse", "tick.py"), "w").write("DECOY = True\n")
+        djobs = [(m,) for m in mods] + [tuple(mods)]
+
+        def drun(h):
+            p = subprocess.run([PY, "-I", CHILD, core.REPO] + list(h), capture_output=True, text=True, timeout=120, env=dict(os.environ, VERIF_DECOY_PATH=ddir))
+            if p.returncode != 0 or not p.stdout.strip():
+                raise core.HarnessFault("import child (decoy on a later path entry) failed for %r: %s" % (h, p.stderr[-500:]))
+            return json.loads(p.stdout.strip().splitlines()[-1])
+
+        outs = list(pool.map(drun, djobs))
+        for h, out in zip(djobs, outs):
+            ctx.case(("decoy", h))
+            ctx.evaluations += 1
+            ctx.hist["imports_with_a_second_chartparse_later_on_the_path"] += 1
+            bad = [r for r in out["results"] if r[1] != "ok"]
+            if bad:
+                ctx.violation("import-fails:shadowed:%s" % bad[0][0], dict(history=list(h), deployment="decoy"), "import %s goes wrong when a LATER sys.path entry also has a package called chartparse (history %r): %s" % (bad[0][0], list(h), bad[0][1]))
+    finally:
+        shutil.rmtree(ddir, ignore_errors=True)
     # the way the package is DEPLOYED is part of "a fresh interpreter" too: the same modules (and the data files next
     # to them) packed into a zip archive on sys.path (zipapp, bundlers) - every first import and the full import
     import shutil
@@ -220,6 +248,21 @@ def run_shard(shard, ctx):
 
 
 def replay(case):
+    if case.get("deployment") == "decoy":
+        import shutil
+        import tempfile
+
+        ddir = tempfile.mkdtemp(prefix="c20decoy_")
+        try:
+            os.makedirs(os.path.join(ddir, "chartparse"))
+            open(os.path.join(ddir, "chartparse", "__init__.py"), "w").write("DECOY = True\n")
+            open(os.path.join(ddir, "chartparse", "tick.py"), "w").write("DECOY = True\n")
+            p = subprocess.run([PY, "-I", CHILD, core.REPO] + list(case["history"]), capture_output=True, text=True, timeout=120, env=dict(os.environ, VERIF_DECOY_PATH=ddir))
+            out = json.loads(p.stdout.strip().splitlines()[-1])
+        finally:
+            shutil.rmtree(ddir, ignore_errors=True)
+        bad = [r for r in out["results"] if r[1] != "ok"]
+        return [dict(key="import-fails:shadowed:" + bad[0][0], msg=bad[0][1], case=case)] if bad else []
     if case.get("deployment") == "zip":
         import shutil
         import tempfile
